@@ -272,7 +272,8 @@ Inductive snode : Type :=
 | SJoin (x y : snode)
 | SCross (x y : snode)
 | SAntiJoin (x : snode) (neg : list val)           (* anti_join with a Bounded (source_iter) side *)
-| SGen (init : val) (f : val -> val -> val * gen) (x : snode).   (* Stream::generator: scan + flat_map *)
+| SGen (init : val) (f : val -> val -> val * gen) (x : snode)    (* Stream::generator: scan + flat_map *)
+| SJoinHalf (x y : snode).          (* Stream::join whose right side is Bounded: HydroNode::JoinHalf *)
 
 Inductive anode : Type :=
 | AFold (init : val) (acc : val -> val -> val) (x : snode)      (* Singleton *)
@@ -280,6 +281,15 @@ Inductive anode : Type :=
 | AFoldKeyed (init : val) (acc : val -> val -> val) (x : snode) (* KeyedSingleton *)
 | AReduceKeyed (f : val -> val -> val) (x : snode)
 | AMap (f : val -> val) (a : anode).                            (* map on singleton / optional / entries *)
+
+(* Boundedness = Bounded: a top-level source_iter and stateless operators over it; such a stream is
+   complete in the first tick *)
+Fixpoint bounded_s (n : snode) : bool :=
+  match n with
+  | SIter _ => true
+  | SMap _ x | SFilter _ x | SFlatMap _ _ x | SFilterMap _ x | SInspect x | SWeaken x => bounded_s x
+  | _ => false
+  end.
 
 (* the Ordering type parameter (true = TotalOrder) *)
 Fixpoint ord (n : snode) : bool :=
@@ -289,6 +299,7 @@ Fixpoint ord (n : snode) : bool :=
   | SFlatMap o _ x => o && ord x
   | SWeaken _ | SUnion _ _ | SJoin _ _ | SCross _ _ => false
   | SEnumerate _ => true
+  | SJoinHalf x y => ord x && ord y     (* PreserveOrderIfBounded<Min<O, O2>> *)
   end.
 
 (* exact (singleton / optional) or multiset (keyed singleton entries) comparison *)
@@ -313,6 +324,7 @@ Fixpoint wf_s (n : snode) : Prop :=
   | SAntiJoin x _ | SFlatMap _ _ x => wf_s x
   | SEnumerate x | SGen _ _ x => ord x = true /\ wf_s x
   | SUnion x y | SJoin x y | SCross x y => wf_s x /\ wf_s y
+  | SJoinHalf x y => bounded_s y = true /\ (wf_s x /\ wf_s y)
   end.
 Fixpoint wf_a (a : anode) : Prop :=
   match a with
@@ -343,6 +355,7 @@ Fixpoint den_s (n : snode) (e : env) : list val :=
   | SCross x y => cross (den_s x e) (den_s y e)
   | SAntiJoin x neg => anti neg (den_s x e)
   | SGen init f x => gen_list f init (den_s x e)
+  | SJoinHalf x y => join (den_s x e) (den_s y e)
   end.
 
 Fixpoint den_a (a : anode) (e : env) : list val :=
@@ -380,6 +393,10 @@ Fixpoint run_s (n : snode) (bs : list env) : list (list val) :=
   | SAntiJoin x neg =>
       op_run LStatic [] anti_step (combine (run_s x bs) (first_tick neg bs))
   | SGen init f x => op_run LStatic GInit (run_items (gen_istep init f)) (run_s x bs)
+  (* join_multiset_half<'static,'tick>: the build (right) side is kept across ticks, the probe
+     (left) side streams through within its tick; no multiset_delta *)
+  | SJoinHalf x y =>
+      op_run LStatic ([], []) (pair_step jmatch LTick LStatic) (combine (run_s x bs) (run_s y bs))
   end.
 
 Fixpoint run_a (a : anode) (bs : list env) : list (list val) :=
@@ -413,6 +430,7 @@ Fixpoint emit_s (n : snode) : list string :=
                   :: emit_s x ++ emit_s y
   | SAntiJoin x _ => "anti_join<'tick,'static>" :: "source_iter" :: emit_s x
   | SGen _ _ x => "scan<'static>" :: "flat_map" :: emit_s x
+  | SJoinHalf x y => "join_multiset_half<'static,'tick>" :: emit_s x ++ emit_s y
   end.
 Fixpoint emit_a (a : anode) : list string :=
   match a with
